@@ -251,6 +251,12 @@ type c18Env struct {
 	gaps   int
 	// activityRO: the harness has set __activity read-only (under mu)
 	activityRO bool
+	// park: successive inspections of a dispatcher goroutine parked outside a
+	// select (driver goroutine only); plan: the refail unit's fault plan (under
+	// mu); see c18_refail_test.go
+	park         c18ParkObs
+	plan         *c18Plan
+	parkReported bool
 
 	// driver-side model (only used to generate mostly valid operations)
 	streams map[string]*c18Stream
@@ -462,6 +468,10 @@ func (e *c18Env) close() {
 		// partition goroutine that outlived Server.Stop() panic in
 		// checkpointHWLoop ("cannot create temp file") and kill the harness.
 		c18Stage("stopping")
+		// a Stop() that waits for a parked dispatcher is judged, not hung with
+		for _, n := range e.c.Running() {
+			e.stopNode(n.ID)
+		}
 		e.c.Stop()
 	}
 }
@@ -998,8 +1008,8 @@ func (e *c18Env) restartNode(id string) bool {
 	e.absorbStore(e.c.Nodes[id].Server(), id)
 	e.drainGroups()
 	c18Stage("stopping")
-	if err := e.c.StopNode(id); err != nil {
-		e.logf("stop %s: %v", id, err)
+	if !e.stopNode(id) {
+		return false
 	}
 	c18Stage("starting")
 	return e.startNode(id)
@@ -1184,6 +1194,13 @@ func (e *c18Env) awaitAndJudge(fenceIdx uint64) {
 			e.fail("C18:"+e.unit+":stuck:dispatcher-does-not-resume-the-paused-activity-stream",
 				fmt.Sprintf("committed operations up to the fence #%d can never be listed: %s", fenceIdx, what), events, ops)
 			return
+		}
+		if time.Since(waitStart) > 1500*time.Millisecond {
+			// the dispatcher goroutine parked in a wait that nothing ends
+			if what, stack := e.dispatcherParked(e.c.metaLeaderNow(), fenceIdx); what != "" {
+				e.failParked(fmt.Sprintf("committed operations up to the fence #%d can never be listed: %s", fenceIdx, what), stack, events)
+				return
+			}
 		}
 		if time.Since(lastProbe) > time.Second && time.Since(waitStart) > 3*time.Second {
 			lastProbe = time.Now()
